@@ -20,6 +20,10 @@ pub fn entries() -> Vec<Entry> {
         ("deb.para", |s| deb822_lossless::Paragraph::from_str(s).is_ok()),
         ("deb.lossy", |s| deb822_lossless::lossy::Deb822::from_str(s).is_ok()),
         ("deb.lossypara", |s| deb822_lossless::lossy::Paragraph::from_str(s).is_ok()),
+        // the std::io::Read entry points (UTF-8 decoding + the same readers)
+        ("deb.read", |s| deb822_lossless::Deb822::read(s.as_bytes()).is_ok()),
+        ("deb.readrelaxed", |s| deb822_lossless::Deb822::read_relaxed(s.as_bytes()).is_ok()),
+        ("deb.lossyreader", |s| deb822_lossless::lossy::Deb822::from_reader(s.as_bytes()).is_ok()),
         // 2. relations, lossless
         ("rel.strict", |s| lrel::Relations::from_str(s).is_ok()),
         ("rel.relaxed0", |s| {
